@@ -27,19 +27,23 @@ def plan(tier, seed):
     specs = shards("docs", 4000 if q else 250000, 250 if q else 4000, seed)
     specs += shards("per_dialect", 80 * (3 if q else 60), 80, seed)
     specs += shards("reused", 2000 if q else 100000, 250 if q else 4000, seed)
+    specs += shards("boundaries", 480 if q else 24000, 30 if q else 600, seed)
     specs += shards("corpus", 1, 1, seed)
     return specs
 
 
 def run_shard(spec, M):
     fam, seed = spec["family"], spec["seed"]
-    if fam in ("docs", "per_dialect", "reused"):
+    if fam in ("docs", "per_dialect", "reused", "boundaries"):
         names = sorted(dialects.master())
         reused = doccheck.Reused(rng(seed, ID, "reused", spec["shard"])) if fam == "reused" else None
         if reused is not None:
             reused.spec = spec
         for i in range(spec["start"], spec["start"] + spec["n"]):
             kw = {"dialect": names[i % 80], "size": "small"} if fam == "per_dialect" else {}
+            if fam == "boundaries":
+                # counts crossing 10/100/1000, columns >= 100, special values ("<", "@", keywords as names, 300-character names, ...)
+                kw = {"size": "huge" if i % 30 == 0 else ("small" if i % 2 else "medium"), "special": 0.35, "deep": True, "rare": False}
             R = doccheck.make_doc(seed, fam, i, **kw)
             case = {"kind": "doc", "family": fam, "index": i, "seed": seed, "text": R.text, "kw": kw}
             doccheck.check_doc(R, M, case, "C03", reused=reused)
